@@ -120,20 +120,7 @@ def drop_condition(run, F):
             seen_sites.add((fn.id, id(loop_stmt)))
             c = cfgmod.cfg_of(fn)
 
-            def reaches_guards(n):
-                if n.kind != 'call':
-                    return False
-                g, _ = anchors.call_target(F, E, fn, n)
-                names = set()
-                if n.e.get('pm'):
-                    for r in E.resolve_pm_all(fn, n.e):
-                        names.add(r.get('m'))
-                if g is not None:
-                    names.add(g.m)
-                    if g.tkey in anchors.ROOT_TKEYS:
-                        names |= set(h.m for h in E.calls_star(g).values())
-                return bool(names & {'cancelledByGuards', 'cancelledByEntryGuards', 'deepForwardEntryGuard', 'deepForwardExitGuard'})
-            gnodes = [n for n in c.events(('call',)) if reaches_guards(n) and c.in_loop(n)]
+            gnodes = [n for n in anchors.guard_round_sites(F, E, fn, c) if c.in_loop(n)]
             if len(gnodes) != 1:
                 raise AnalysisBroken('%s: %d guard-round call sites in the substitution loop' % (fn.short, len(gnodes)))
             gnode = gnodes[0]
